@@ -359,7 +359,8 @@ def nolog_agreement(ctx, ss, k=12):
     println! debugging, exist only there). The same requests through the public API of that build, with print_debug_info off and on:
     both must equal the result of the instrumented build bit for bit."""
     from .core import run_nolog
-    sel = [s for s in ss if s.get("impl", {}).get("status") in ("ok", "zerodet", "unstable", "gammaerr") and s["req"].get("api_graph")][:k]
+    sel = [s for s in ss if s.get("impl", {}).get("status") in ("ok", "zerodet", "unstable", "gammaerr") and s["req"].get("api_graph")
+           and 1 <= s["req"].get("D", 0) <= 6][:k]          # (the default-feature harness is instantiated for D = 1..6)
     if not sel:
         return
     reqs = []
@@ -386,6 +387,34 @@ def nolog_agreement(ctx, ss, k=12):
                 diff = [f for f in fields if a.get(f) != b.get(f)]
                 ctx.violation(f"default-feature build (no `log`), print_debug_info={dbg}: {diff} differ from the result of the same call in the "
                               f"instrumented build", small, expected={f: a.get(f) for f in diff}, observed={f: b.get(f) for f in diff}); break
+
+
+def divergent_probe(ctx):
+    """graphs with a proper subgraph whose generalised degree of divergence is EXACTLY zero (logarithmic divergence; every other subset is
+    convergent): no sampler may be built for them - a sampler that exists returns unbounded weights (infinite J, infinite or NaN jacobian)"""
+    from .core import run_harness
+    from . import graphs as G_
+    probes = []
+    # D=4: a unit-weight bubble inside a triangle (the bubble does not touch the third external vertex: not spanning, omega = 2 - 4/2 = 0)
+    probes.append(([(0, 1), (0, 1), (1, 2), (2, 0)], [1.0, 1.0, 2.0, 2.0], [False] * 4, [0, 1, 2], 4))
+    # D=2: a unit-weight tadpole on a massive bubble (omega = 1 - 2/2 = 0)
+    probes.append(([(0, 0), (0, 1), (0, 1)], [1.0, 1.5, 1.5], [False, True, True], [0, 1], 2))
+    # D=3: weights 0.75 + 0.75 on a bubble inside a box
+    probes.append(([(0, 1), (0, 1), (1, 2), (2, 3), (3, 0)], [0.75, 0.75, 1.0, 1.0, 1.0], [False] * 5, [0, 1, 2, 3], 3))
+    reqs, kept = [], []
+    for edges, w, massive, ext, D in probes:
+        dod, Lf, table = oracle.table_oracle(edges, w, massive, ext, D)
+        n = len(edges)
+        oms = [t[2] for t in table[1:(1 << n) - 1]]
+        if min(oms) != 0 or dod <= 0:
+            continue            # (the probe must be exactly logarithmic, nothing worse)
+        c = dict(edges=edges, weights=w, massive=massive, ext=ext, D=D)
+        reqs.append(G_.request(c)); kept.append(c)
+    for c, a in zip(kept, run_harness(reqs)):
+        ctx.count("log_divergent_probe")
+        if a.get("status") == "ok":
+            ctx.violation("a sampler is built for a graph with a logarithmically divergent proper subgraph (generalised degree of divergence exactly 0): "
+                          "J of that subgraph is infinite and the sample weights are unbounded", G_.request(c), expected="rejected", observed="accepted")
 
 
 def normalisation_oracle(ctx, ss, limit=60):
@@ -429,8 +458,15 @@ def rng_entry_agreement(ctx, ss, k=8):
     rng = ctx.rng
     for i, s in enumerate(sel):
         dim = len(s["req"]["x"])
-        for variant in ("plain", "tol0", "surplus_edge_data"):
+        nE = len(s["case"]["edges"])
+        for variant in ("plain", "tol0", "surplus_edge_data", "zero_radius", "zero_xi", "zero_choice", "zero_lambda"):
             ks = [rng.getrandbits(53) | 1 for _ in range(dim)]
+            # a generator may deliver an exact 0.0 (53 zero bits): the rng entry point hands it on as it is
+            zpos = {"zero_radius": 2 * nE - 1, "zero_xi": 1, "zero_choice": 0, "zero_lambda": 2 * nE - 2}.get(variant)
+            if zpos is not None:
+                if zpos >= dim or (variant in ("zero_xi", "zero_choice") and nE < 2):
+                    continue
+                ks[zpos] = 0
             base = dict(s["req"]); base.pop("api_graph", None); base.pop("tol", None)
             if variant == "tol0":
                 base["tol"] = f2b(0.0)
